@@ -764,8 +764,17 @@ def check_socket_timeout(c, repo, restore=True):
     recvs = [k for k in calls_in(f2.node) if callee_last(k) == 'recv']
     c.need(len(recvs) == 1, 'recv not found')
     ws = [p for p in parent_chain(recvs[0]) if isinstance(p, ast.With)]
+    def callers_timeout(e):
+        # the caller's timeout itself, or a local copy of it (possibly with the -1 sentinel replaced by the instance default on the way)
+        if is_name(e, 'timeout'):
+            return True
+        if not isinstance(e, ast.Name):
+            return False
+        defs = [n for n in ast.walk(f2.node) if isinstance(n, ast.Assign) and e.id in assigned_names(n)]
+        return bool(defs) and any(is_name(d.value, 'timeout') for d in defs) and \
+            all(is_name(d.value, 'timeout') or norm(d.value) == 'self.timeout' for d in defs)
     ok = bool(ws) and any(isinstance(i.context_expr, ast.Call) and callee_last(i.context_expr) == '_timeout'
-                          and i.context_expr.args and is_name(i.context_expr.args[0], 'timeout') for i in ws[0].items)
+                          and i.context_expr.args and callers_timeout(i.context_expr.args[0]) for i in ws[0].items)
     c.check(ok, f2, recvs[0], 'recv happens inside `with self._timeout(timeout)`', kind='ast', tag='recv-inside-with')
     decos = [src(d) for d in f.node.decorator_list]
     c.check('contextmanager' in decos, f, f.node, '_timeout is a context manager', kind='ast', tag='is-contextmanager')
